@@ -985,3 +985,31 @@ func Uniform(t *rapid.T, n int, label string) int {
 	x := uint32(rapid.Byte().Draw(t, label+"-b0")) | uint32(rapid.Byte().Draw(t, label+"-b1"))<<8 | uint32(rapid.Byte().Draw(t, label+"-b2"))<<16
 	return int((x * 2654435761 >> 8) % uint32(n))
 }
+
+// AppendEmpty appends a deterministic empty block (no transactions, empty state diff) without any
+// rapid draw; used to build long base chains once per process.
+func (c *Chain) AppendEmpty(version string) *Block {
+	pre := c.TipState()
+	num := uint64(len(c.Blocks))
+	c.ts += 30
+	parent := felt.Zero
+	if num > 0 {
+		parent = *c.Blocks[num-1].B.Hash
+	}
+	d := core.EmptyStateDiff()
+	h := &core.Header{
+		ParentHash: &parent, Number: num, SequencerAddress: FP(0x5e9), Timestamp: c.ts, ProtocolVersion: version,
+		EventsBloom: core.EventsBloom(nil), L1GasPriceETH: FP(1), L1GasPriceSTRK: FP(1),
+		L1DataGasPrice: &core.GasPrice{PriceInWei: FP(1), PriceInFri: FP(1)}, L2GasPrice: &core.GasPrice{PriceInWei: FP(1), PriceInFri: FP(1)},
+	}
+	b := &Block{B: &core.Block{Header: h, Transactions: []core.Transaction{}, Receipts: []*core.TransactionReceipt{}},
+		SU: &core.StateUpdate{StateDiff: &d}, Classes: map[felt.Felt]core.ClassDefinition{}, Pre: pre, Post: pre, Tags: map[string]bool{"empty-block": true}}
+	Seal(b, c.U.Net)
+	c.Blocks = append(c.Blocks, b)
+	for i, v := range Versions {
+		if v == version && i > c.verIdx {
+			c.verIdx = i
+		}
+	}
+	return b
+}
